@@ -4,6 +4,8 @@ import (
 	"fmt"
 	"sort"
 	"strings"
+	"time"
+	"vctl/internal/grog"
 
 	"vctl/internal/report"
 	"vctl/internal/rng"
@@ -362,6 +364,77 @@ func RunC13(tier string) int {
 				return
 			}
 			_ = vs2
+		})
+	}
+	// A taint placed while a build is already executing the target (grog taint takes no
+	// workspace lock) belongs to the NEXT build: the build in flight decided to run the target
+	// before the taint existed and must not consume it.
+	if report.Part("taintduring") {
+		Parallel(tierN(tier, 6, 40), func(i int) {
+			r := rng.Derive(uint64(run.Seed), "C13-during", fmt.Sprint(i))
+			s := &spec.Spec{Files: map[string]string{"p/t.txt": "t1\n", "p/u.txt": "u1\n"}}
+			t := &spec.Target{Pkg: "p", Name: "gen", Salt: r.Word(4, 8), Inputs: []string{"t.txt"}, Outs: []spec.Out{{Kind: "file", Path: "gen.out"}}, SleepMs: 1500}
+			u := &spec.Target{Pkg: "p", Name: "use", Salt: r.Word(4, 8), Inputs: []string{"u.txt"}, Deps: []string{"//p:gen"}, Outs: []spec.Out{{Kind: "file", Path: "use.out"}}}
+			s.Targets = []*spec.Target{t, u}
+			gcfg := randCfg(r)
+			if r.Chance(1, 3) {
+				gcfg.LoadOutputs = "minimal"
+			}
+			env, err := NewEnv(st.Base, fmt.Sprintf("td%d", i), st.Grog, st.Vctl, s, gcfg)
+			if err != nil {
+				run.Infra(err.Error())
+				return
+			}
+			keep := false
+			defer func() {
+				if !keep {
+					env.Cleanup()
+				}
+			}()
+			if obs := env.RunBuild(BuildOpts{}); obs.Res.Exit != 0 {
+				return
+			}
+			why := rng.Pick(r, []string{"edit", "cache-disabled"})
+			bo := BuildOpts{}
+			if why == "edit" {
+				s.Files["p/t.txt"] = "t2\n"
+				if err := env.Sync(); err != nil {
+					run.Infra(err.Error())
+					return
+				}
+			} else {
+				bo.DisableCache = true
+			}
+			done := make(chan *Obs, 1)
+			go func() { done <- env.RunBuild(bo) }()
+			// wait until the command of //p:gen has started in the build in flight (b2)
+			started := false
+			for w := 0; w < 300 && !started; w++ {
+				time.Sleep(10 * time.Millisecond)
+				started = env.ReadTrace("b2").Started["//p:gen"] > 0
+			}
+			var tres *grog.Result
+			if started {
+				tres = env.M.Run([]string{"taint", "//p:gen"}, grog.RunOpts{Build: "taint"})
+			}
+			obs2 := <-done
+			if !started || tres == nil || tres.Exit != 0 || obs2.Res.Exit != 0 || obs2.Ended["//p:gen"] == 0 {
+				run.Count("taint_during_build_cases_not_judged(timing)", 1)
+				return
+			}
+			env.Logf("grog taint //p:gen completed while b2 (%s) was executing //p:gen", why)
+			obs3 := env.RunBuild(BuildOpts{})
+			run.Eval(1)
+			run.Count("taints_placed_while_the_target_was_executing", 1)
+			run.Nontrivial(fmt.Sprintf("taint-during|%s|%s", why, gcfg.LoadOutputs))
+			if obs3.Res.Exit != 0 {
+				return
+			}
+			if obs3.Started["//p:gen"] == 0 {
+				keep = !run.Violation("taint-placed-during-a-build-is-lost why="+why,
+					fmt.Sprintf("grog taint //p:gen completed while a build (%s) was executing //p:gen; that build finished successfully and the next build did not execute //p:gen: the taint was consumed by an execution that was decided before it existed", why),
+					mkReplay(i, env, obs3)) || keep
+			}
 		})
 	}
 	run.Assume("what a cache-disabled build leaves behind in the cache is not fixed by the statement: the following build of those targets is may-exec")
